@@ -659,11 +659,14 @@ static int ec_insert(char *loc, char *cmd, char *arg, char *txt)
 {
 	int beg, end;
 	int n;
-	if (ex_region(loc, &beg, &end) && (beg != 0 || end != 0))
+	/* besides existing lines, "before the first line": address 0 or current line 0 */
+	if (ex_region(loc, &beg, &end) && (beg != 0 || end != 0) &&
+			!(cmd[0] == 'a' && beg == -1 && end == 0))
 		return 1;
-	if (cmd[0] == 'a')
-		if (beg + 1 <= lbuf_len(xb))
-			beg++;
+	if (beg < 0)
+		beg = 0;
+	if (cmd[0] == 'a' && end > 0)	/* after the addressed line, if there is one */
+		beg++;
 	if (cmd[0] != 'c')
 		end = beg;
 	n = lbuf_len(xb);
